@@ -75,8 +75,9 @@ type gen struct {
 	keys    [][]byte
 	prevV   [][]byte
 	valCtr  int
-	noEmpty bool // knob: no empty values
+	noEmpty bool // no empty values
 	noEmptyKey bool
+	noLong  bool // no keys of 32 bytes or more
 }
 
 func (g *gen) remember(key []byte) {
@@ -96,7 +97,11 @@ func (g *gen) key() []byte {
 		return g.keys[k.Choose(len(g.keys), "key-ix")]
 	}
 	var key []byte
-	switch k.Choose(14, "key-shape") {
+	shape := k.Choose(14, "key-shape")
+	if shape == 13 && g.noLong {
+		shape = 0
+	}
+	switch shape {
 	case 13: // long key: partial keys beyond 63 nibbles
 		n := []int{32, 33, 64, 70, 160}[k.Choose(5, "longkey-len")]
 		key = make([]byte, n)
